@@ -117,7 +117,7 @@ class Component:
     def result(self, tier):
         return P.cached(self.name, tier, lambda: self.pipeline(tier))
 
-    def run(self, prop, tier, crash_clause=None):
+    def run(self, prop, tier, crash_clause=None, floor_clauses=False):
         """crash_clause: clause name under which an exception escaping the library during a driven
         scenario is reported for this property (None: such a crash is a machinery failure)."""
         t0 = time.time()
@@ -140,6 +140,19 @@ class Component:
                   what='trace %d line %d fails %s' % (x['tid'], x['k'], x['clause']),
                   replay={'pipeline': self.name, 'ops': x['scenario'].get('ops'), 'kind': x['scenario'].get('kind'),
                           'seed': x['scenario'].get('seed'), 'line': x['k']})
+        floor = None
+        if floor_clauses:
+            # the property also quantifies over the component inside arbitrary lines: its clauses on the
+            # factory-floor traces (FloorObs.tla) are part of this check
+            from . import p_floor
+            fres = p_floor.result(tier)
+            floor = {'floor_trace_lines': fres['lines'], 'floor_configurations': fres.get('configs'),
+                     'floor_spec_divergences': fres.get('spec_divergences')}
+            for x in fres['violations']:
+                if x['clause'].startswith(prop + '.'):
+                    v.add(key='%s:%s' % (prop, x['clause'].split('.', 1)[1]), clause=x['clause'],
+                          what='floor configuration %d (%s) line %d fails %s' % (x['cid'], x['family'], x['k'], x['clause']),
+                          replay={'pipeline': 'floor', 'cfg': x['cfg'], 'seed': x['seed'], 'line': x['k']})
         lines, rc = v.finish()
         cov = {
             'states': res['design']['states'], 'transitions': res['design']['transitions'],
@@ -148,6 +161,7 @@ class Component:
             'exhaustive': True,
             'design': res['design'],
             'impl_trace_lines': res['lines'],
+            'on_floor_traces': floor,
             'exercised': res['exercised'],
             'spec_behaviours_replayed': res['spec_behaviours'],
             'spec_divergences': res['spec_divergences'],
